@@ -184,7 +184,7 @@ func joinTokens(toks []string) string {
 	return sb.String()
 }
 
-var gapChoices = []string{" ", "  ", "\n", "\t", " /* c */ ", "/**/", " // c\n", "\r\n", " /* 'q' ) */ "}
+var gapChoices = []string{" ", "  ", "\n", "\t", " /* c */ ", "/**/", " // c\n", "\r\n", " /* 'q' ) */ ", "\r", " // c\r", " // + 1\r\n", " //\n"}
 
 // decorateTokens draws a gap for every token boundary.
 func decorateTokens(s Src, toks []string) string {
